@@ -192,6 +192,56 @@ func §E() {
 	drv.Run[int](func() drv.It[int] { it := §direct(); return it })
 }
 `, "panic:nil"),
+		G("panic-after-native-range-over-nil-array-pointer", `
+var p *[3]int
+n := 0
+for i := range p {
+	n += i + 1
+}
+YIELD(n)
+for range p {
+	n++
+}
+YIELD(n)
+if tr.B(1) {
+	panic(tr.V(2, "boom"))
+}
+YIELD(3)
+RETNIL`, "panic:explicit", "range:ptr-array"),
+		Raw("panic-after-break-in-native-range", `
+func §first[S ~[]int](s S, stop int) ITER[int] GEN[int]{
+	n := 0
+	for _, v := range s {
+		if v == stop {
+			break
+		}
+		if v < 0 {
+			continue
+		}
+		n += v
+	}
+	YIELD(n)
+	if tr.B(1) {
+		panic(tr.V(2, "after-break"))
+	}
+	arr := [3]int{1, 2, 3}
+	for i, v := range &arr {
+		if i == 1 {
+			continue
+		}
+		if v == 3 {
+			break
+		}
+		n += v
+	}
+	tr.E(3)
+	panic(tr.V(4, n))
+}GEN
+func §gen() ITER[int] GEN[int]{
+	YFROM(§first([]int{1, -1, 2, 9, 4}, 9))
+	RETNIL
+}GEN
+`+StdEntry, "panic:explicit", "range:type-param"),
 		G("panic-nil-func-call", `
 var f func() int
 YIELD(1)
